@@ -38,7 +38,7 @@ def run(tier, seed):
         v.sample(s)
     nt = v.counters.get('nontrivial', 0) or sum(1 for _ in out['results'])
     if v.counters.get('readbacks', 0) == 0 or v.counters.get('evaluations', 0) == 0:
-        raise MachineryError('vacuous run')
+        v.vacuous('vacuous run')
     cov = dict(states=out['run']['states'], transitions=out['run']['transitions'], traces_validated_against_impl=out['n'],
                evaluations=v.counters.get('evaluations', 0),
                distinct_nontrivial=v.counters.get('feat_has_P', 0) + v.counters.get('feat_has_H', 0), exhaustive=(tier == 'quick'),
